@@ -58,8 +58,14 @@ def boost_rekey(rng, ast):
     ast["types"].append({"name": "tbb", "keytype": None if bkt == "basic-key" else bkt, "datatype": None,
                          "implements": None, "extends": None, "items": [wild]})
     mid = "tbb"
-    if rng.random() < 0.4:
-        ast["types"].append({"name": "tbm", "keytype": None, "datatype": rng.choice([None, "zcv.dt.wrap"]),
+    if rng.random() < 0.55:
+        # the middle of a chain of three; sometimes with a key type of its own, and the leaf going
+        # back to the key type of the root (A - B - A)
+        midkt = None
+        if rng.random() < 0.5:
+            midkt = dkt
+            dkt = bkt if rng.random() < 0.6 else rng.choice(["identifier", "basic-key", "zcv.dt.basickey"])
+        ast["types"].append({"name": "tbm", "keytype": midkt, "datatype": rng.choice([None, "zcv.dt.wrap"]),
                              "implements": None, "extends": "Tbb", "items": [
                                  {"kind": "key", "name": "alpha", "attribute": None, "required": False,
                                   "handler": None, "datatype": "string", "default": "d"}]})
